@@ -333,6 +333,12 @@ def _(env, I, T):
     return _req(env, 'DELETE', f'/key/{kpk}/delete?ajax=1&csrf_token={T["kids"]}')
 
 
+@action('delete the key used by the encrypted files (POST form)', True)
+def a_key_del_used_form(env, I, T):
+    kpk = I['keys'].get('1ab45440532c439994dc5c5ad9584bac', 999)
+    return _req(env, 'POST', f'/key/{kpk}/delete', data={'csrf_token': T['kids']})
+
+
 @action('delete the unused key (POST form)')
 def _(env, I, T):
     kpk = I['keys'].get('00112233445566778899aabbccddeeff', 999)
@@ -547,6 +553,7 @@ DELETES = {
     'delete media synirr_v1, the timing reference (POST form)': ('media', lambda I: I['files'].get('synirr_v1', (None,))[0]),
     'delete media synenc_v1_enc (DELETE /delete)': ('media', lambda I: I['files'].get('synenc_v1_enc', (None,))[0]),
     'delete the key used by the encrypted files': ('key', lambda I: I['keys'].get('1ab45440532c439994dc5c5ad9584bac')),
+    'delete the key used by the encrypted files (POST form)': ('key', lambda I: I['keys'].get('1ab45440532c439994dc5c5ad9584bac')),
     'delete the unused key (POST form)': ('key', lambda I: I['keys'].get('00112233445566778899aabbccddeeff')),
     'delete mpsa': ('mps', lambda I: I['mps'].get('mpsa')),
 }
